@@ -580,6 +580,18 @@ def check_scope_order(ctx, F, rule="C06.scope"):
         has_scope = any(x.get("k") in ("ctor", "call") and "f" in x and F.fn(x["f"]).get("cls") == "Region" and F.fn(x["f"]).get("kind") == "ctor"
                         for x in walk(b.get("body") or {}))
         if not has_scope:
+            # a member that lets the region's *head* run a callback on a control through which plans are addressed (PlanControl and richer)
+            # needs the scope too: without it control.plan() inside that callback (exit()!) is the enclosing region's plan
+            ps = b.get("params", [])
+            ct = F.type(ps[0].get("tid")) if ps and ps[0].get("tid") is not None else None
+            rich = (ct or {}).get("name") in ("PlanControlT", "FullControlBaseT", "FullControlT", "GuardControlT", "EventControlT")
+            head_calls = [F.fn(x["f"])["name"] for x in walk(b.get("body") or {})
+                          if x.get("k") == "call" and "f" in x and F.fn(x["f"]).get("cls") == "S_" and F.fn(x["f"])["name"].startswith("deep")]
+            if rich and head_calls:
+                ctx.instance(rule, site + "/scope-first", {"function": site, "loc": F.floc(fid)})
+                ctx.violation(rule, site + "/scope-first", "%s (%s)" % (site, F.floc(fid)),
+                              "%s lets the head (and the sub-states) run %s on a %s without opening the region's scope: inside those callbacks "
+                              "control.plan() addresses the enclosing region's plan" % (site, "/".join(sorted(set(head_calls))), ct.get("name")), {})
             continue
         bad = None
         for p in paths_of(ctx, F, fid):
